@@ -6,30 +6,39 @@ from .astutil import dotted, const, NOCONST, is_self_attr, walk_shallow
 
 
 def role_table(fn, role_test, file="?"):
-    """Evaluate a function of the shape
-           [asserts...]
-           if <role test>: return A   else: return B        (or: if <role test>: return A \n return B)
+    """Evaluate a function that returns one expression per role:
+           if <role test>: return A   else: return B     /  guard-clause and inverted spellings alike
        -> {True: A, False: B} (expressions).  role_test(node) -> True/False/None tells whether `node` is the role
        predicate (True), its negation (False) or something else (None)."""
-    body = [s for s in fn.body if not isinstance(s, (ast.Assert, ast.Pass))
-            and not (isinstance(s, ast.Expr) and isinstance(s.value, ast.Constant))]
-    if not body or not isinstance(body[0], ast.If):
-        raise AnalysisError("%s:%d: %s is not a role table (no leading if on the role)" % (file, fn.lineno, fn.name))
-    node = body[0]
-    pol = role_test(node.test)
-    if pol is None:
-        raise AnalysisError("%s:%d: %s branches on something other than the role" % (file, fn.lineno, fn.name))
-    t = _single_return(node.body, fn, file)
-    rest = node.orelse if node.orelse else body[1:]
-    f = _single_return(rest, fn, file)
-    return {True: t, False: f} if pol else {True: f, False: t}
+    from .cfg import build
+    g = build(fn, split=True)
+    out = {}
+    for role in (True, False):
+        unknown = []
 
-
-def _single_return(stmts, fn, file):
-    stmts = [s for s in stmts if not isinstance(s, (ast.Assert, ast.Pass))]
-    if len(stmts) != 1 or not isinstance(stmts[0], ast.Return) or stmts[0].value is None:
-        raise AnalysisError("%s:%d: branch of role table %s is not a single return" % (file, fn.lineno, fn.name))
-    return stmts[0].value
+        def oracle(test, role=role):
+            pol = role_test(test)
+            if pol is None:
+                unknown.append(test)
+                return None
+            return role if pol else (not role)
+        paths = g.paths_under(oracle)
+        if unknown:
+            raise AnalysisError("%s:%d: %s branches on something other than the role" % (file, fn.lineno, fn.name))
+        rets = []
+        for nodes, end in paths:
+            if end != 'exit':
+                raise AnalysisError("%s:%d: role table %s raises for a role" % (file, fn.lineno, fn.name))
+            r = [g.stmt[n] for n in nodes if isinstance(g.stmt[n], ast.Return)]
+            if len(r) != 1 or r[0].value is None:
+                raise AnalysisError("%s:%d: branch of role table %s is not a single return" % (file, fn.lineno, fn.name))
+            rets.append(r[0].value)
+        if len(rets) != 1:
+            raise AnalysisError("%s:%d: %s is not a role table (%d paths for one role)" % (file, fn.lineno, fn.name, len(rets)))
+        out[role] = rets[0]
+    if ast.dump(out[True]) == ast.dump(out[False]) and out[True] is out[False]:
+        raise AnalysisError("%s:%d: %s is not a role table (no branch on the role)" % (file, fn.lineno, fn.name))
+    return out
 
 
 def is_sender_test(node):
